@@ -106,9 +106,25 @@ package nfpm
 //
 //@ import "github.com/goreleaser/nfpm/v2/files"
 //
-//@ trusted func (c *Config) expandEnvVarsStringSlice(items []string) (result []string)
-//@   ensures [C16] same-backing-array: len(result) <= len(items) && (len(items) == 0 || result == nil || &result[0] == &items[0] || len(result) == 0)
+//@ import "strings"
+//
+//@ spec func allTrimmed(items []string, from, to int) bool {
+//@     return forall(from, to, func(j int) bool { return items[j] == strings.TrimSpace(items[j]) })
+//@ }
+//
+//@ spec func noneEmpty(items []string, to int) bool {
+//@     return forall(0, to, func(j int) bool { return items[j] != "" })
+//@ }
+//
+//@ func (c *Config) expandEnvVarsStringSlice(items []string) (result []string)
+//@   requires c != nil
+//@   ensures [C16] items-are-trimmed-and-empty-ones-dropped: allTrimmed(result, 0, len(result)) && noneEmpty(result, len(result))
+//@   ensures [C16] nothing-invented: len(result) <= len(items)
 //@   modifies [C11 C12] elems(items)
+//@   loop 0 (iter int)
+//@     invariant [C16] trimmed-so-far: 0 <= iter && iter <= len(items) && allTrimmed(items, 0, iter)
+//@   loop 1 (i int, cur=items []string)
+//@     invariant [C16] compacted-so-far: sameArray(cur, items) && 0 <= i && i <= len(cur) && len(cur) <= len(items) && allTrimmed(cur, 0, len(cur)) && noneEmpty(cur, i)
 //
 //@ trusted func (c *Config) expandEnvVarsContents(contents files.Contents) (result files.Contents)
 //@   ensures [C16] same-list: len(result) == len(contents)
